@@ -69,7 +69,41 @@ Definition norm_sock (O : iporacle) (s : str) : str :=
   | _ => s
   end.
 
+(** TXT records: the whitespace the parser trims (around the payload, around each bracketed
+    entry, around the ISD-AS and the host inside an entry, around the separating commas) is
+    removed; the ISD-AS and the host are normalised as above *)
+Fixpoint norm_txt_entries (fuel : nat) (O : iporacle) (t : str) : str :=
+  match fuel with
+  | O => t
+  | S f =>
+    match t with
+    | [] => []
+    | b :: r =>
+      if b =? c_lbr then
+        match split_once c_rbr r with
+        | Some (entry, after) =>
+          let e := match split_once c_comma (trim entry) with
+                   | Some (a, h) => norm_ia (trim a) ++ [c_comma] ++ norm_host O (trim h)
+                   | None => trim entry
+                   end in
+          [c_lbr] ++ e ++ [c_rbr] ++
+          match trim after with
+          | [] => []
+          | c :: r' => if c =? c_comma then c_comma :: norm_txt_entries f O (trim r') else c :: r'
+          end
+        | None => t
+        end
+      else t
+    end
+  end.
+Definition norm_txt (O : iporacle) (s : str) : str :=
+  match strip_prefix SCION_TXT_PREFIX s with
+  | Some p => SCION_TXT_PREFIX ++ norm_txt_entries (S (length p)) O (trim p)
+  | None => s
+  end.
+
 Definition norm (O : iporacle) (k : N) (s : str) : str :=
+  if k =? K_TXT then norm_txt O s else
   if k =? K_ISD then norm_isd s else if k =? K_ASN then norm_asn s else if k =? K_IA then norm_ia s
   else if k =? K_SVC then norm_svc s else if k =? K_HOST then norm_host O s
   else if k <=? 9 then norm_addr O s else norm_sock O s.
@@ -82,6 +116,16 @@ Definition addr_forms (O : iporacle) (ia : N) (h : host) : list str :=
 Definition sock_forms (O : iporacle) (ia : N) (h : host) (p : N) : list str :=
   map (fun a => [c_lbr] ++ a ++ [c_rbr; c_colon] ++ to_digits 10 p) (addr_forms O ia h).
 
+(** every entry in either AS notation *)
+Fixpoint txt_forms (O : iporacle) (l : list (N * host)) : list str :=
+  match l with
+  | [] => [[]]
+  | (ia, h) :: r =>
+    flat_map (fun a => map (fun t => [c_lbr] ++ a ++ [c_rbr] ++ match r with [] => [] | _ => [c_comma] end ++ t)
+                           (txt_forms O r))
+             (addr_forms O ia h)
+  end.
+
 Definition forms (O : iporacle) (k : N) (v : val) : list str :=
   match v with
   | VNum n => if k =? K_ASN then asn_forms n else if k =? K_IA then ia_forms n
@@ -89,7 +133,34 @@ Definition forms (O : iporacle) (k : N) (v : val) : list str :=
   | VHost h => [display_host O h]
   | VAddr ia h => addr_forms O ia h
   | VSock ia h p => sock_forms O ia h p
+  | VList l => map (fun e => SCION_TXT_PREFIX ++ e) (txt_forms O l)
   end.
+
+(** Rust's [&str] is valid UTF-8.  The structural part of that invariant (lead bytes followed
+    by the right number of continuation bytes; a superset of valid UTF-8) is the
+    precondition of the no-panic theorem: byte-index slicing panics off a char boundary. *)
+Definition is_cont (b : N) : bool := (128 <=? b) && (b <? 192).
+Fixpoint utf8_ok (s : str) : bool :=
+  match s with
+  | [] => true
+  | b :: r =>
+    if b <? 128 then utf8_ok r
+    else if (194 <=? b) && (b <? 224) then
+      match r with c1 :: r1 => is_cont c1 && utf8_ok r1 | _ => false end
+    else if (224 <=? b) && (b <? 240) then
+      match r with c1 :: c2 :: r2 => is_cont c1 && is_cont c2 && utf8_ok r2 | _ => false end
+    else if (240 <=? b) && (b <? 245) then
+      match r with c1 :: c2 :: c3 :: r3 => is_cont c1 && is_cont c2 && is_cont c3 && utf8_ok r3 | _ => false end
+    else false
+  end.
+
+(** the alphabets of std's IP text forms (hypotheses of the theorems; checked on every
+    oracle-table entry in the correspondence) *)
+Definition ip4ch (c : N) : bool := ((48 <=? c) && (c <=? 57)) || (c =? 46).
+Definition ip6ch (c : N) : bool :=
+  ((48 <=? c) && (c <=? 57)) || ((97 <=? c) && (c <=? 102)) || ((65 <=? c) && (c <=? 70)) ||
+  (c =? c_colon) || (c =? 46).
+Definition has_colon (s : str) : bool := existsb (N.eqb c_colon) s.
 
 (** the property's three oracles on an observed behaviour *)
 Definition exact_ok (O : iporacle) (k : N) (s : str) (v : val) : bool :=
@@ -104,6 +175,7 @@ Definition val_named (k : N) (v : val) : bool :=
   match v with
   | VNum n => if k =? K_SVC then svc_named n else true
   | VHost h | VAddr _ h | VSock _ h _ => host_named h
+  | VList _ => true
   end.
 
 (** value ranges of the Rust types *)
@@ -116,4 +188,27 @@ Definition val_wf (k : N) (v : val) : bool :=
   | VHost h => host_wf h
   | VAddr ia h => (ia <? 2 ^ 64) && host_wf h
   | VSock ia h p => (ia <? 2 ^ 64) && host_wf h && (p <? 2 ^ 16)
+  | VList l => forallb (fun p => (fst p <? 2 ^ 64) && host_wf (snd p)) l
   end.
+
+(** What the theorems assume of std's IP parsers and formatters (trusted base): display then
+    parse is the identity on the address range; IPv4 text consists of digits and dots; IPv6
+    text consists of hex digits, colons and dots and contains a colon. *)
+Definition std_like (O : iporacle) : Prop :=
+  (forall a, a < 2 ^ 32 -> ip4_parse O (ip4_display O a) = Some a) /\
+  (forall a, a < 2 ^ 128 -> ip6_parse O (ip6_display O a) = Some a) /\
+  (forall s a, ip4_parse O s = Some a -> forallb ip4ch s = true) /\
+  (forall s a, ip6_parse O s = Some a -> forallb ip6ch s = true /\ has_colon s = true).
+
+(** a (toy) instance, showing the assumptions are satisfiable: IPv4 "<decimal>.", IPv6 ":<hex>" *)
+Definition decb (c : N) : bool := (48 <=? c) && (c <=? 57).
+Definition lhexb' (c : N) : bool := ((48 <=? c) && (c <=? 57)) || ((97 <=? c) && (c <=? 102)).
+Definition toy_oracle : iporacle :=
+  mkIp (fun s => match rev s with
+                 | d :: r => if (d =? 46) && forallb decb (rev r) then parse_uint 10 (2 ^ 32 - 1) (rev r) else None
+                 | [] => None end)
+       (fun s => match s with
+                 | c :: t => if (c =? c_colon) && forallb lhexb' t then parse_uint 16 (2 ^ 128 - 1) t else None
+                 | [] => None end)
+       (fun a => to_digits 10 a ++ [46])
+       (fun a => c_colon :: to_digits 16 a).
